@@ -151,6 +151,7 @@ static bool fault_here(const char* call, int64_t* param) {
     else if (!strcmp(call, "opendir")) match = f == "opendir_emfile";
     else if (!strcmp(call, "readdir")) match = f == "readdir_eio";
     else if (!strcmp(call, "clock_gettime")) match = f == "clock_fail";
+    else if (!strcmp(call, "strndup")) match = f == "strndup_fail";
     else if (!strcmp(call, "close") || !strcmp(call, "closedir")) match = f == "close_fail";
     if (!match || nth != g_cur_op->fault_nth) return false;
     *param = g_cur_op->fault_param;
@@ -208,6 +209,13 @@ static bool seg_fault_here(const char* call) {
     if (++g_callcount[call] != target) return false;
     if (S) S->faults_fired++;
     return true;
+}
+// the copy of a descriptor's path cannot be allocated (the only allocation on the path_open path)
+extern "C" char* __real_strndup(const char*, size_t);
+extern "C" char* __wrap_strndup(const char* s0, size_t n) {
+    int64_t prm;
+    if (sut() && fault_here("strndup", &prm)) { if (S) S->fault_kind[F_EIO]++; errno = ENOMEM; return nullptr; }
+    return __real_strndup(s0, n);
 }
 extern "C" ssize_t __real_read(int, void*, size_t);
 extern "C" ssize_t __real_write(int, const void*, size_t);
